@@ -119,6 +119,11 @@ META.update({
     "C19": {"level": PLEVEL + "Post-condition: right-maximality of every match and the backward clause of BHP/BDHP.", "note": PNOTE},
 })
 
+META["C15"] = {"level": "bounded model checking by induction: each ParserBuffer operation (Write, ReadFrom with an arbitrary contract-abiding reader, Shrink, Reset with arbitrary "
+                        "len/cap, ReadAt/PeekAt/ByteAt at any int64 offset, Init with any int64 configuration) from an arbitrary state satisfying the representation "
+                        "invariant; post-condition relative to the ghost reading Data[i] = stream byte Off+i, invariant re-established",
+               "note": "bounds: see evidence.bounds (buffer and slice sizes, reader calls). " + TRUST}
+
 NOT_APPLICABLE = {}
 
 
@@ -218,3 +223,32 @@ def spec_C14(tier):
 def spec_C19(tier):
     return parse_spec(tier, "maximality: every emitted match ends at the block end or the next byte differs from the byte Offset back; BHP/BDHP: a literal directly in front "
                       "of a match never equals the byte Offset before it while that byte is buffered")
+
+
+# ---------------------------------------------------------------- ParserBuffer (C15)
+
+def pb_jobs(tier):
+    P, CX, PB, LP, RD = (4, 2, 6, 4, 2) if tier == "quick" else (7, 3, 10, 7, 3)
+    base = {"P": P, "CX": CX, "PB": PB, "LP": LP, "RD": RD}
+    jobs = []
+    for op in ("pbWrite", "pbReadFrom", "pbShrink", "pbReset", "pbReadAt"):
+        for ld in range(P + 1):
+            jobs.append(J("%s-ld%d" % (op, ld), "zzH_" + op, params=dict(base, ld=ld)))
+    jobs.append(J("pbInit", "zzH_pbInit", params=base))
+    bounds = {"len(Data)": "0..%d, cap = len+7+(0..%d)" % (P, CX), "BufferSize": "1..%d" % PB, "ShrinkSize": "0..BufferSize-1", "W": "0..len(Data)", "Off": "0..2^40",
+              "Write/ReadAt slice, Reset data": "0..%d bytes (Reset data with spare capacity 0..8)" % LP, "absolute offset x": "all of int64",
+              "reader": "up to %d Read calls, each delivering any k <= len(p) arbitrary bytes with nil / io.EOF / failure (k >= 1 or err != nil), then (0, io.EOF)" % RD,
+              "Init": "all four BufConfig fields over all of int64", "operations": "one call from an arbitrary state satisfying the invariant (inductive step)"}
+    return jobs, bounds
+
+
+def spec_C15(tier):
+    jobs, bounds = pb_jobs(tier)
+    return {"jobs": jobs, "bounds": bounds,
+            "assumptions": ["pre-state: 0<=W<=len(Data)<=BufferSize, 0<=ShrinkSize<BufferSize (what Verify accepts), Off>=0, cap(Data)>=len(Data)+7 unless the buffer is empty "
+                            "(re-asserted on every post-state, so inductive)", "io.Reader contract: k <= len(p) and (k >= 1 or err != nil)",
+                            "append/make growth as on go1.23.5", "64-bit int"],
+            "outside": ["buffers larger than the bound; BufferSize above the bound (grow's 1024-byte floor is then never the minimum)", "readers violating the io.Reader contract (0, nil)"],
+            "explanation": "ghost reading: Data[i] is stream byte Off+i; each operation must keep that mapping: Write/ReadFrom append exactly what they report, Shrink drops exactly "
+                           "delta oldest bytes and adds delta to Off, ReadAt/PeekAt/ByteAt at any int64 offset return Data[x-Off] or the documented error without panicking",
+            "reach": {"zzH_pbInit": ["end", "accepted"]}}
